@@ -173,6 +173,17 @@ def replay(path: str) -> int:
     work = core.Work()
     try:
         out = work.path('replay.ndjson')
+        import json as _json
+        stored = _json.load(open(path))
+        if stored.get('kind') == 'keyvalues':      # a KvTree record: re-execute the one call
+            core.run_driver('kvtree_driver.py', ['replay', path, out])
+            mism, _ = core.validate_records('KvTreeTrace', 'KvTreeTrace.cfg', out, work=work, shards=1)
+            bad = [m for m in mism]
+            for m in bad:
+                print(f'VIOLATION property={PROP} replay={path} clause={m["clause"]} what=keyvalues')
+            if not bad:
+                print(f'OK replay={path}: no violation reproduced')
+            return 1 if bad else 0
         core.run_driver('c09_driver.py', ['replay', path, out])
         mism, _ = core.validate_records('AliasTrace', 'AliasTrace.cfg', out, work=work, shards=1)
         known, new = core.classify(PROP, [sig_of(m) for m in mism if m['clause'] != 'noeffect'])
